@@ -454,7 +454,8 @@ Definition process (oc : opclass) (p1 p2 : Z) (index : Z) (m : mstate) : result 
   | OPutString mode =>
     let! (a, m1) := pop m in
     let! op1 := int_name a in
-    let! lv := of_option EIndex (PyBytes.index (f_locals (m_fn m1)) op1) in
+    let '(m1, idx) := scale m1 op1 in
+    let! lv := of_option EIndex (PyBytes.index (f_locals (m_fn m1)) idx) in
     let! (lv', m2) := add_modifiers lv m1 index in
     let! (r, m3) := pop m2 in
     Ok (add_stmt m3 index (SpAssign index lv' r mode))
@@ -465,7 +466,8 @@ Definition process (oc : opclass) (p1 p2 : Z) (index : Z) (m : mstate) : result 
   | ODeleteFromString =>
     let! (a, m1) := pop m in
     let! op1 := int_name a in
-    let! lv := of_option EIndex (PyBytes.index (f_locals (m_fn m1)) op1) in
+    let '(m1, idx) := scale m1 op1 in
+    let! lv := of_option EIndex (PyBytes.index (f_locals (m_fn m1)) idx) in
     let! (lv', m2) := add_modifiers lv m1 index in
     Ok (add_stmt m2 index (Unary "delete" index lv'))
   | ODeleteFromField =>
